@@ -189,6 +189,17 @@ CHECKS["C17"]["text"] += (" The structs also round trip through text: de_text (p
 CHECKS["C18"]["text"] += " The model keeps proxy.rs's single address variable; the cache discipline is regenerated from proxy.rs (tr/proxy.py)."
 CHECKS["C19"]["text"] += (" A rejected call moves nobody and, for every history of one client, the consumed steps are exactly the canonical chain; the transition table and "
                           "the rejected-call discipline are regenerated from main.rs (tr/cert.py); histories are run through the real server and the extracted state machine.")
+CHECKS["C01"]["text"] += " Replies are also collected through a writer that accepts only part of each buffer (short writes)."
+CHECKS["C07"]["text"] += (" Streams are drained to their end (continuing errors and odd parameter shapes included) and followed by another call on the same connection; "
+                          "errors of other interfaces that end in a standard short name stay VarlinkErrorReply.")
+CHECKS["C08"]["text"] += " One corpus declares errors named like the org.varlink.service ones (InterfaceNotFound, MethodNotImplemented, ...)."
+CHECKS["C09"]["text"] += " The build-script helper cargo_build() is run twice into one OUT_DIR (rebuild after an edit) and its file compared with generate()."
+CHECKS["C13"]["text"] += " The repository's examples/example service is run with a neighbour that stops reading its replies."
+CHECKS["C14"]["text"] += " Listen-level scenarios include max_worker_threads = 0; every accepted connection must get its reply."
+CHECKS["C15"]["text"] += " Scenarios include max_worker_threads = 0."
+CHECKS["C16"]["text"] += " Activation by a foreign activator (listening socket passed as descriptor 3, blocking or O_NONBLOCK, service without idle timeout) is a transport of its own."
+CHECKS["C18"]["text"] += " Resolver-mode sequences also run against targets that serve one connection at a time."
+CHECKS["C20"]["text"] += " A fifth of the cases run with --debug."
 for _k in CHECKS:
     CHECKS[_k]["text"] += " Tie also: the text of the hand-modelled functions is pinned (tr/shapes.py) and every props file proves its pin."
 
